@@ -190,3 +190,92 @@ pub fn c12_timelock_rules() {
     chk!(ExtData::cast_nonzero(a).timelock_info == a.timelock_info && ExtData::cast_zeronotequal(a).timelock_info == a.timelock_info, "j:/n: keep time-lock info");
     cover!(and.contains_combination && !or.contains_combination, "and conflicts where or does not");
 }
+
+// ---- who accepts what (generated cases; library parsers / constructors ran natively) -------
+
+use crate::shape::{Shape, World, MAXW, W_STACK};
+use crate::vm::{self, tag, El, Machine};
+
+pub struct Acc {
+    pub shape: &'static Shape,
+    pub entries: &'static [(&'static str, bool)],
+    pub desc_parser_ok: bool,
+    pub ms_consensus_parser_ok: bool,
+    pub sigless_rejected: bool,
+    pub limits: &'static [(u8, u32, bool, u32)],
+    pub dup_expected: bool,
+    pub dup_rejected: bool,
+}
+
+#[cfg(not(kani))]
+fn note_acc(a: &Acc) { eprintln!("  term {}", a.shape.name); }
+#[cfg(kani)]
+fn note_acc(_: &Acc) {}
+
+pub fn acc(a: &Acc) {
+    note_acc(a);
+    let sh = a.shape;
+    let is_b = sh.ty.base == crate::spec::B;
+    cover!(true, "case evaluated");
+    // (1) every parser / constructor / consensus-or-sane validation only accepts complete boolean scripts
+    let mut i = 0;
+    while i < a.entries.len() {
+        if a.entries[i].1 {
+            chk!(is_b, "a parser or constructor accepts a top-level expression that is not of type B");
+        }
+        i += 1;
+    }
+    // (2) what the descriptor parser accepts, the miniscript parser with consensus parameters accepts
+    if a.desc_parser_ok {
+        chk!(a.ms_consensus_parser_ok, "descriptor parser accepts a script the miniscript parser with consensus parameters rejects");
+    }
+    // (3) limit switches reject exactly above the script's own figure
+    let mut i = 0;
+    while i < a.limits.len() {
+        let (_, limit, ok, fig) = a.limits[i];
+        chk!(ok == (fig <= limit), "a size / opcode / witness limit does not reject exactly the scripts above it");
+        i += 1;
+    }
+    // (4) duplicate-key switch
+    if a.dup_expected {
+        chk!(a.dup_rejected, "duplicate keys are not rejected with allow_duplicate_keys = false");
+    }
+    // (5) signature-less-branch switch, behaviourally (B-typed complete scripts)
+    if is_b {
+        if a.sigless_rejected {
+            // the library's own malleable satisfaction without any signature is the witness (C01 executes it)
+            let mut found = false;
+            let mut r = 0;
+            while r < sh.rows.len() {
+                if sh.rows[r].sigs == 0 && sh.rows[r].sat_m_k == W_STACK {
+                    found = true;
+                }
+                r += 1;
+            }
+            chk!(found || !sh.satisfiable, "sigless-branch switch rejects a script that has no signature-free satisfaction");
+        } else {
+            // accepted: no signature-free witness may succeed, for any lock values
+            let wd = World { sigs: 0, pres: (1u8 << sh.nhash) - 1, n_lock_time: sym::u32_(), n_sequence: sym::u32_() };
+            let env = sh.env(&wd);
+            let mut m = Machine::new();
+            let n = sym::u8_() as usize;
+            let depth = if (sh.fig.sat_stack_count as usize) < MAXW { sh.fig.sat_stack_count as usize + 1 } else { MAXW };
+            sym::assume(n <= depth);
+            let mut j = 0;
+            while j < MAXW {
+                if j < depth {
+                    let e: El = crate::shape::any_el(sh);
+                    sym::assume(!(e.t == tag::SIG && e.n == 1));
+                    if j < n {
+                        m.st[j] = e;
+                    }
+                }
+                j += 1;
+            }
+            m.sp = n;
+            m.run(sh.ops, &env);
+            chk!(!m.accepted(), "script passes the sigless-branch switch but a signature-free witness is accepted");
+            let _ = vm::EMPTY;
+        }
+    }
+}
